@@ -17,7 +17,10 @@ open J5V.Go
 
 /-- summary of one source file of a local package (`sourceResolver.getFile`) -/
 def fileSummary : SrcFile → Outcome Summary'
-  | .j5s path imports elems => sourceSummary path imports elems
+  | .j5s path imports elems decl =>
+    -- `parseJ5s` (`fix: cf01603`): the declared package must be the one the path gives
+    if decl ≠ packageFromFilename path then .err "package-mismatch"
+    else sourceSummary path imports elems
   | .proto path msgs enums =>
     let pkg := packageFromFilename path
     .ok { path := path, pkg := pkg,
@@ -48,7 +51,7 @@ def protoFilesOf (files : List SrcFile) : List (Str × Str × List Str × List (
   files.filterMap fun f =>
     match f with
     | .proto path msgs enums => some (path, packageFromFilename path, msgs, enums)
-    | .j5s _ _ _ => none
+    | .j5s _ _ _ _ => none
 
 /-- packages of the Go registry that an empty dependency set can still provide -/
 def builtinPkgs : List Str :=
@@ -77,7 +80,7 @@ def summaries : List SrcFile → Outcome (List Summary')
 def convertAll (res : Resolver) : List SrcFile → Outcome (List FileSkel)
   | [] => .ok []
   | .proto _ _ _ :: rest => convertAll res rest
-  | .j5s path imports elems :: rest =>
+  | .j5s path imports elems _ :: rest =>
     match convertFile res path imports elems with
     | .err t => .err t
     | .panic w => .panic w
